@@ -24,6 +24,8 @@ RULE = (
     "for n <= 4 variables ALL non-empty subsets Z, random subsets above; nested Z1 then Z2 vs union; "
     "multi-output; 4 flags; sum-product / lse-sum / complex-lse-sum; distinct = (structure "
     "signature, Z); non-trivial = Z cuts through at least one product layer's scope or is the full scope"
+    " Also (square-flat): c0*c0 / c0*conj(c0) for flat circuits whose 3-4 same-shaped input layers fold into one "
+    "tensor (layer list and product input list in independent random orders), all Z, all 4 flags;"
 )
 EXHAUSTIVE_SUBSPACES = ["all non-empty variable subsets Z for circuits with <= 4 variables", "all 4 (fold, optimize) combinations"]
 ASSUMPTIONS = [
@@ -32,7 +34,7 @@ ASSUMPTIONS = [
 ]
 FLOOR = {
     "in:embedding": 1, "in:categorical-probs": 1, "in:categorical-logits": 1, "in:gaussian": 1, "in:gaussian-lp": 1,
-    "Z:partial": 1, "Z:full": 1, "Z:continuous": 1, "nested": 1, "multi-output": 1, "operand:product": 1,
+    "square-flat": 4, "Z:partial": 1, "Z:full": 1, "Z:continuous": 1, "nested": 1, "multi-output": 1, "operand:product": 1,
     "marginals_compared": 200,
 }
 
@@ -43,12 +45,16 @@ def plan(tier, seed):
     for k in range(n):
         for kind in ("base", "base-mono", "product", "cont"):
             cases.append({"kind": kind, "k": k, "seed": seed})
+    for k in range(8 if tier == "quick" else 600):
+        cases.append({"kind": "square-flat", "k": k, "seed": seed})
     return cases
 
 
 def build(case):
     rng = case_rng(ID, case["seed"], (case["kind"], case["k"]))
     kind = case["kind"]
+    if kind == "square-flat":
+        return build_square_flat(rng)
     if kind == "product":
         cfg = pipes.base_cfg(rng, pipes.INTEGRABLE, nvars=rng.randint(1, 3), structured=True)
         cfg2 = pipes.base_cfg(rng, pipes.INTEGRABLE, nvars=cfg.nvars, id_mode=cfg.id_mode, structured=True)
@@ -61,6 +67,39 @@ def build(case):
                          monotonic=mono, multi_part_prob=0.3, outputs=rng.choice([1, 1, 2, 3]))
     sc, meta = gen.gen_circuit(rng, cfg)
     return rng, sc, meta["domains"], mono
+
+
+def build_square_flat(rng):
+    """c0*c0 (or c0*conj(c0)) for a flat circuit with V same-shaped input layers that fold into one
+    tensor: under fold=True every integrated / remaining group of the product reads that tensor through
+    pointers with *repeated* fold indices; the layer list and the product's input list are in
+    independent random orders, and all Z are enumerated (V <= 4)."""
+    from cirkit.symbolic import layers as L
+    from cirkit.symbolic import parameters as P
+    from cirkit.symbolic.circuit import Circuit
+    from cirkit.symbolic.initializers import NormalInitializer
+
+    V, K, n = rng.randint(3, 4), rng.randint(1, 3), rng.randint(2, 3)
+    fam = rng.choice(["embedding", "cat-logits", "cat-probs"])
+    ins = []
+    for v in range(V):
+        t = P.Parameter.from_input(P.TensorParameter(K, n, initializer=NormalInitializer()))
+        if fam == "embedding":
+            ins.append(L.EmbeddingLayer(Scope([v]), K, num_states=n, weight=t))
+        elif fam == "cat-logits":
+            ins.append(L.CategoricalLayer(Scope([v]), K, num_categories=n, logits=t))
+        else:
+            ins.append(L.CategoricalLayer(Scope([v]), K, num_categories=n, probs=P.Parameter.from_unary(P.SoftmaxParameter((K, n)), t)))
+    prod = L.HadamardLayer(K, arity=V)
+    ko = rng.randint(1, 2)
+    out = L.SumLayer(K, ko, arity=1, weight=P.Parameter.from_input(P.TensorParameter(ko, K, initializer=NormalInitializer())))
+    listed = list(ins)
+    rng.shuffle(listed)
+    wired = list(ins)
+    rng.shuffle(wired)
+    c0 = Circuit(listed + [prod, out], {prod: wired, out: [prod]}, [out])
+    c = SF.multiply(c0, SF.conjugate(c0)) if rng.random() < 0.3 else SF.multiply(c0, c0)
+    return rng, c, {v: ("disc", n) for v in range(V)}, False
 
 
 def subsets(rng, ids):
@@ -123,7 +162,9 @@ def run_case(case) -> Result:
             res.features.add("nested")
     res.sig = c01.struct_sig(c) + ":" + short_hash(zs)
 
-    flags = C.FLAGS if case["k"] % 2 == 0 else [C.FLAGS[rng.randrange(4)], C.FLAGS[3]]
+    if case["kind"] == "square-flat":
+        res.features.add("square-flat")
+    flags = C.FLAGS if case["k"] % 2 == 0 or case["kind"] == "square-flat" else [C.FLAGS[rng.randrange(4)], C.FLAGS[3]]
     vseed = rng.getrandbits(32)
     vcls = rng.choice(["init", "normal"]) if not mono else rng.choice(["init", "posonly"])
     ypool = gen.random_inputs(nrng, domains, 6)
